@@ -155,9 +155,15 @@ def run(ctx):
                 "represented day repeated 2-3 times (lumped), per-cycle damages scaled by lam (lumped), one more tube; stub "
                 "and the 6 shipped metallic materials. one case = one pair; non-trivial = base life finite and non-zero")
     ctx.trusted += ["brentq tolerance 1e-6 relative in life comparisons; shipped laws are exercised inside their data range only"]
+    from harness import translators
+    ctx.trusted += ["translator harness/translators/lifeformulas.py (Python ast -> Gallina expressions and normalised source text)"]
+    translators.import_all()
+    ctx.gen("LifeFormulas", translators.REGISTRY["LifeFormulas"])
     ctx.prove("C09")
+    ctx.prove("C01_formulas")
     if ctx.tier == "thorough":
         ctx.coqchk("C09")
+        ctx.coqchk("C01_formulas")
     rng = ctx.rng
     jobs = []   # (name, base_index, case, relation)
     cases = []
